@@ -10,6 +10,18 @@ CLAIMED = {
          "Machine-checked proof (Lean 4 kernel) that the model of Governor::next_state satisfies every clause of the envelope for all states, all speeds, all ages and all idle<=max; the model is tied to the code by running all 4x4 states x 65536 speeds x 3 age classes x several settings through the real function and comparing, with the Spec also evaluated on the implementation's own output.",
          "Assumes the model equals the code outside the enumerated settings (idle,max,timeout) - the function is parametric in them; ages are produced with Instant::now()-d, far from the deadline; clamp with idle>max panics in Rust and is excluded by hypothesis.",
          "DESIGN.md section 4 C07"),
+ "C01": ("Lean 4 induction over histories of the HCU driver state machine (state = last motion command) + differential histories on the real HydraulicControlUnit/NetDriverContext",
+         "Machine-checked proof that for every finite history of commands (all object kinds), received frames and ticks the model's tick output is the encoding of the most recent motion command (stop-all initially), is only the lock frame while that is stop-all, and is unaffected by non-motion ops; the model is tied to the real driver by random histories compared frame-for-frame, the Spec being evaluated on the implementation's frames.",
+         "Interleavings: each handler touches tx_last_message in one atomic lock acquisition (trigger one write, tick one read, try_recv none), so concurrent executions are sequential histories ordered by that access; std Mutex and the tokio scheduler are trusted. rx frames that make try_recv panic are C06's concern.",
+         "DESIGN.md section 4 C01"),
+ "C02": ("Lean 4 theorems over the HCU frame encoder for all change lists (any length, order, duplicates), all i16, all (da,sa) + exhaustive/enumerated differential run of HydraulicControlUnit::trigger and ActuatorMessage::from_frame",
+         "Machine-checked proof that the model encoder satisfies the addressing, config-frame, slot-placement and decode-round-trip clauses for every motion, every change list and every address pair; tied to the code by enumerating all (da,sa) for config frames, all/boundary i16 per actuator, every actuator sequence up to length 3 (5 thorough), empty and 32-entry sets, with bit-exact frame comparison.",
+         "IdBuilder of the j1939 crate is modelled as + under disjoint-field hypotheses (PDU1 groups with zero low byte), checked differentially; HashMap iteration order is irrelevant because keys are distinct after collection (modelled as last-write-wins).",
+         "DESIGN.md section 4 C02"),
+ "C17": ("Lean 4 theorems about can_frame marshalling (all ids, len 0..8, data) and filter semantics for filter lists of any length + differential run through the real CANSocket/ControlNetwork on the emulated bus and Filter::matches",
+         "Machine-checked proof that the modelled send produces EFF-set/RTR-ERR-clear frames carrying id, length and data, that receive masks to 29 bits and pads with 0xFF to 8 bytes, and that Filter::matches equals the reference accept/reject predicate for every list; tied to the code by raw 16-byte frames exchanged with the real ControlNetwork over the verif bus seam and by all filter lists up to 2 (3 thorough) entries over all 16 field masks.",
+         "The seam replaces only socket creation and the final send syscall; the marshalling lines are the production ones. DLC > 8 cannot occur on classic CAN and would index out of bounds in CANSocket::recv (excluded by the property). Kernel CAN stack trusted.",
+         "DESIGN.md section 4 C17"),
 }
 NOT_YET = "check not built yet in this round (planned: Lean model + correspondence, see DESIGN.md section 4)"
 
